@@ -17,6 +17,9 @@ Proof.
     try discriminate; try congruence; try reflexivity.
 Qed.
 
+Lemma eq_target_spec d' k : eq_target d' k = true <-> d_dig d' = k_dig k.
+Proof. unfold eq_target. apply N.eqb_eq. Qed.
+
 Lemma Neqb_spec (a c : N) : (a =? c) = true <-> a = c.
 Proof. apply N.eqb_eq. Qed.
 
@@ -492,11 +495,24 @@ Section Oci.
 
   Definition canon_desc (d : desc) : Prop := gk d = U (d_dig d).
 
-  Definition canon_op (o : op) : Prop :=
+  (* every descriptor of the operation is the universe's descriptor for its digest *)
+  Definition canon_op_all (o : op) : Prop :=
     match o with
     | Push d _ | Fetch d | Exists d | Tag d _ | Preds d | Delete d => canon_desc d
     | _ => True
     end.
+
+  (* what the sequential theorems need: content is pushed and deleted under its universe
+     descriptor.  Fetch, Exists, Tag and Predecessors may use any descriptor of the digest --
+     in particular the application/octet-stream one that Resolve(<digest>) hands out. *)
+  Definition canon_op (o : op) : Prop :=
+    match o with
+    | Push d _ | Delete d => canon_desc d
+    | _ => True
+    end.
+
+  Lemma canon_op_all_weaken o : canon_op_all o -> canon_op o.
+  Proof. destruct o; simpl; auto. Qed.
 
   Definition S_oci (blobs : list (N * blob)) : gkey -> option (list gkey) :=
     fun k => if gkey_eqb k (U (k_dig k)) then option_map (succ_of k) (get N.eqb (k_dig k) blobs) else None.
@@ -504,8 +520,7 @@ Section Oci.
   Record oci_inv (s : oci_store) : Prop := mkOI {
     oi_nodup : NoDup (map fst (o_blobs s));
     oi_graph : graph_inv (S_oci (o_blobs s)) (o_graph s);
-    oi_tags : forall r d, In (r, d) (r_index (o_res s)) ->
-                          canon_desc d /\ get N.eqb (d_dig d) (o_blobs s) <> None }.
+    oi_tags : forall r d, In (r, d) (r_index (o_res s)) -> get N.eqb (d_dig d) (o_blobs s) <> None }.
 
   Lemma oci_inv_init : oci_inv oci_init.
   Proof.
@@ -537,11 +552,11 @@ Section Oci.
     r_index (oci_untag_equal k snap s) = untag_fold k snap (r_index s).
   Proof.
     unfold oci_untag_equal, untag_fold. revert s. induction snap as [|e snap IH]; intro s; cbn [fold_left]; auto.
-    destruct (gkey_eqb (gk (snd e)) k); rewrite IH; [now rewrite r_index_untag | reflexivity].
+    destruct (eq_target (snd e) k); rewrite IH; [now rewrite r_index_untag | reflexivity].
   Qed.
 
   Lemma untag_equal_nomatch k snap s :
-    (forall e, In e snap -> gkey_eqb (gk (snd e)) k = false) -> oci_untag_equal k snap s = s.
+    (forall e, In e snap -> eq_target (snd e) k = false) -> oci_untag_equal k snap s = s.
   Proof.
     unfold oci_untag_equal. revert s. induction snap as [|e snap IH]; intros s H; cbn [fold_left]; auto.
     rewrite (H e) by now left. apply IH. intros e' He'. apply H. now right.
@@ -549,11 +564,11 @@ Section Oci.
 
   Lemma untag_fold_In k snap t r d :
     In (r, d) (untag_fold k snap t) ->
-    In (r, d) t /\ forall d', In (r, d') snap -> gkey_eqb (gk d') k = false.
+    In (r, d) t /\ forall d', In (r, d') snap -> eq_target d' k = false.
   Proof.
     unfold untag_fold. revert t. induction snap as [|[r0 d0] snap IH]; intros t H; cbn [fold_left fst snd] in H.
     - split; auto. simpl. tauto.
-    - destruct (gkey_eqb (gk d0) k) eqn:E.
+    - destruct (eq_target d0 k) eqn:E.
       + destruct (IH _ H) as [A B]. apply (In_del_inv ref_eqb ref_eqb_spec) in A as [A1 A2].
         split; auto. intros d' [C|C]; [congruence | auto].
       + destruct (IH _ H) as [A B]. split; auto. intros d' [C|C]; [congruence | auto].
@@ -582,9 +597,9 @@ Section Oci.
   Proof.
     intros [Hnd Hg Ht] Habs. split.
     - apply untag_equal_nomatch. intros [r d'] Hin. simpl.
-      destruct (gkey_eqb (gk d') (gk d)) eqn:E; auto. apply gkey_eqb_spec in E.
-      destruct (Ht _ _ Hin) as [_ B]. exfalso. apply B.
-      assert (d_dig d' = d_dig d) as -> by (unfold gk in E; congruence). exact Habs.
+      destruct (eq_target d' (gk d)) eqn:E; auto. apply eq_target_spec in E.
+      pose proof (Ht _ _ Hin) as B. exfalso. apply B.
+      assert (d_dig d' = d_dig d) as -> by exact E. exact Habs.
     - eapply g_remove_absent; [exact Hg|]. unfold S_oci. rewrite k_dig_gk, Habs.
       now destruct (gkey_eqb (gk d) (U (d_dig d))).
   Qed.
@@ -616,12 +631,12 @@ Section Oci.
   Qed.
 
   Lemma oci_inv_tag s d r :
-    oci_inv s -> canon_desc d -> get N.eqb (d_dig d) (o_blobs s) <> None ->
+    oci_inv s -> get N.eqb (d_dig d) (o_blobs s) <> None ->
     oci_inv (mkOci (o_blobs s) (oci_tag d r (o_res s)) (o_graph s)).
   Proof.
-    intros [Hnd Hg Ht] Hc E. constructor; cbn [o_blobs o_res o_graph]; [exact Hnd | exact Hg |].
+    intros [Hnd Hg Ht] E. constructor; cbn [o_blobs o_res o_graph]; [exact Hnd | exact Hg |].
     intros r' d' Hin. rewrite r_index_oci_tag in Hin.
-    apply In_spec_oci_tag in Hin as [->|Hin]; [split; assumption | apply (Ht _ _ Hin)].
+    apply In_spec_oci_tag in Hin as [->|Hin]; [assumption | apply (Ht _ _ Hin)].
   Qed.
 
   Lemma oci_inv_untag s r :
@@ -657,8 +672,8 @@ Section Oci.
         { destruct (is_manifest (d_mt d)); auto. rewrite r_index_oci_tag in Hin.
           eapply In_spec_oci_tag; eauto. }
         destruct Hin' as [->|Hin'].
-        * split; auto. rewrite (get_put_eq N.eqb Neqb_spec). discriminate.
-        * destruct (Ht _ _ Hin') as [A B]. split; auto. now apply get_put_mono.
+        * rewrite (get_put_eq N.eqb Neqb_spec). discriminate.
+        * apply get_put_mono. apply (Ht _ _ Hin').
     - destruct (get N.eqb (d_dig d) (o_blobs s)); assumption.
     - (* Tag *)
       assert (Hok : forall r0, get N.eqb (d_dig d) (o_blobs s) <> None ->
@@ -682,10 +697,10 @@ Section Oci.
         * eapply graph_inv_ext; [intro k; apply S_oci_del; exact Hc|]. now apply g_remove_inv.
         * intros r d' Hin. rewrite r_index_untag_equal in Hin.
           apply untag_fold_In in Hin as [A B]. specialize (B _ A).
-          destruct (Ht _ _ A) as [C D]. split; auto.
+          pose proof (Ht _ _ A) as D.
           rewrite (get_del_neq N.eqb Neqb_spec); auto.
-          intro Hd. rewrite (canon_same_dig _ _ C Hc Hd) in B.
-          rewrite (eqb_refl gkey_eqb gkey_eqb_spec) in B. discriminate.
+          intro Hd. assert (X : eq_target d' (gk d) = true) by (apply eq_target_spec; exact Hd).
+          congruence.
       + destruct (oci_delete_absent s d Hinv E) as [-> ->]. destruct s; assumption.
   Qed.
 
@@ -806,25 +821,25 @@ Lemma untag_fold_get_none k snap t r :
   get ref_eqb r t = None -> get ref_eqb r (untag_fold k snap t) = None.
 Proof.
   unfold untag_fold. revert t. induction snap as [|[r0 d0] snap IH]; intros t H; cbn [fold_left fst snd]; auto.
-  destruct (gkey_eqb (gk d0) k); auto. apply IH.
+  destruct (eq_target d0 k); auto. apply IH.
   destruct (eqb_dec ref_eqb ref_eqb_spec r r0) as [->|Hne].
   - apply (get_del_eq ref_eqb).
   - now rewrite (get_del_neq ref_eqb ref_eqb_spec).
 Qed.
 
 Lemma untag_fold_get_keep k snap t r :
-  (forall d', In (r, d') snap -> gkey_eqb (gk d') k = false) ->
+  (forall d', In (r, d') snap -> eq_target d' k = false) ->
   get ref_eqb r (untag_fold k snap t) = get ref_eqb r t.
 Proof.
   unfold untag_fold. revert t. induction snap as [|[r0 d0] snap IH]; intros t H; cbn [fold_left fst snd]; auto.
-  assert (H' : forall d', In (r, d') snap -> gkey_eqb (gk d') k = false) by (intros; apply H; now right).
-  destruct (gkey_eqb (gk d0) k) eqn:E; [|now apply IH].
+  assert (H' : forall d', In (r, d') snap -> eq_target d' k = false) by (intros; apply H; now right).
+  destruct (eq_target d0 k) eqn:E; [|now apply IH].
   rewrite IH by exact H'. apply (get_del_neq ref_eqb ref_eqb_spec).
   intro; subst r0. rewrite (H d0) in E by now left. discriminate.
 Qed.
 
 Lemma untag_fold_get_drop k snap t r d' :
-  In (r, d') snap -> gkey_eqb (gk d') k = true -> get ref_eqb r (untag_fold k snap t) = None.
+  In (r, d') snap -> eq_target d' k = true -> get ref_eqb r (untag_fold k snap t) = None.
 Proof.
   unfold untag_fold. revert t. induction snap as [|[r0 d0] snap IH]; intros t Hin Hm; [destruct Hin|].
   cbn [fold_left fst snd]. destruct Hin as [Heq|Hin].
@@ -856,7 +871,7 @@ Lemma untag_fold_order_free k snap t r :
 Proof.
   intros Hnd Hperm. unfold spec_untag_equal. rewrite get_filter_nodup by exact Hnd. simpl.
   destruct (get ref_eqb r t) as [d|] eqn:G.
-  - destruct (gkey_eqb (gk d) k) eqn:E; simpl.
+  - destruct (eq_target d k) eqn:E; simpl.
     + eapply untag_fold_get_drop; [|exact E]. apply Hperm. now apply (get_In ref_eqb ref_eqb_spec).
     + rewrite untag_fold_get_keep; auto. intros d' Hin. apply Hperm in Hin.
       rewrite (In_get ref_eqb ref_eqb_spec _ _ _ Hnd Hin) in G. congruence.
@@ -1006,7 +1021,7 @@ Qed.
 Lemma untag_fold_nodup k snap t : NoDup (map fst t) -> NoDup (map fst (untag_fold k snap t)).
 Proof.
   unfold untag_fold. revert t. induction snap as [|e snap IH]; intros t H; cbn [fold_left]; auto.
-  destruct (gkey_eqb (gk (snd e)) k); auto. apply IH. now apply NoDup_del.
+  destruct (eq_target (snd e) k); auto. apply IH. now apply NoDup_del.
 Qed.
 
 Lemma spec_oci_tag_nodup d r t : NoDup (map fst t) -> NoDup (map fst (spec_oci_tag d r t)).
@@ -1043,7 +1058,7 @@ Definition touches_name (n : N) (k : gkey) (o : op) : bool :=
   match o with
   | Tag _ (RName m) => m =? n
   | Untag (RName m) => m =? n
-  | Delete d => gkey_eqb (gk d) k
+  | Delete d => d_dig d =? k_dig k      (* Delete untags every reference to that digest *)
   | _ => false
   end.
 
@@ -1089,8 +1104,8 @@ Proof.
     assert (Hk : get ref_eqb (RName n) (untag_fold (gk d0) (r_index (o_res s)) (r_index (o_res s))) = Some d).
     { rewrite untag_fold_get_keep; auto. intros d' Hin.
       rewrite (In_get ref_eqb ref_eqb_spec _ _ _ Hnd Hin) in H. injection H as ->.
-      destruct (gkey_eqb (gk d) (gk d0)) eqn:E; auto. apply gkey_eqb_spec in E. rewrite E in Ht.
-      rewrite (eqb_refl gkey_eqb gkey_eqb_spec) in Ht. discriminate. }
+      destruct (eq_target d (gk d0)) eqn:E; auto. apply eq_target_spec in E.
+      rewrite k_dig_gk in *. rewrite <- E, N.eqb_refl in Ht. discriminate. }
     destruct (get N.eqb (d_dig d0) (o_blobs s)); cbn [fst o_res]; now rewrite r_index_untag_equal.
 Qed.
 
@@ -1132,7 +1147,7 @@ Lemma oci_delete_clears h1 d :
   let s' := fst (oci_step s (Delete d)) in
   snd (oci_step s' (Fetch d)) = OErr ENotFound /\
   snd (oci_step s' (Exists d)) = OBool false /\
-  forall n d', get ref_eqb (RName n) (r_index (o_res s)) = Some d' -> gk d' = gk d ->
+  forall n d', get ref_eqb (RName n) (r_index (o_res s)) = Some d' -> d_dig d' = d_dig d ->
                snd (oci_step s' (Resolve (RName n))) = OErr ENotFound.
 Proof.
   intros s Hok s'.
@@ -1142,17 +1157,20 @@ Proof.
   intros n d' Hg Hk. rewrite r_index_untag_equal.
   rewrite (untag_fold_get_drop (gk d) _ _ (RName n) d'); auto.
   - now apply (get_In ref_eqb ref_eqb_spec).
-  - rewrite Hk. apply (eqb_refl gkey_eqb gkey_eqb_spec).
+  - apply eq_target_spec. exact Hk.
 Qed.
 
 (* ================================================================== *)
 (* File store                                                          *)
 (* ================================================================== *)
+Definition titles_ok (c : blob) : Prop :=
+  (forall k n, In (k, n) (b_tl c) -> path_of n = n) /\ (forall k n, In (k, n) (b_pre_tl c) -> path_of n = n).
+
 Record file_inv (s : file_store) : Prop := mkFI {
   fi_d2p : forall g p, get N.eqb g (f_d2p s) = Some p ->
                        In p (f_names s) /\ exists c, get N.eqb p (f_disk s) = Some c /\ b_hash c = g;
-  fi_disk : forall p c, get N.eqb p (f_disk s) = Some c -> In p (f_names s);
-  fi_cas : forall k c, get gkey_eqb k (f_cas s) = Some c -> b_hash c = k_dig k }.
+  fi_disk : forall p c, get N.eqb p (f_disk s) = Some c -> In p (f_names s) /\ titles_ok c;
+  fi_cas : forall k c, get gkey_eqb k (f_cas s) = Some c -> b_hash c = k_dig k /\ titles_ok c }.
 
 Lemma file_inv_init : file_inv file_init.
 Proof. constructor; simpl; intros; discriminate. Qed.
@@ -1169,97 +1187,120 @@ Lemma file_inv_graph s g : file_inv s ->
   file_inv (mkFile (f_names s) (f_d2p s) (f_disk s) (f_cas s) (f_res s) g).
 Proof. intros [A B C]. constructor; auto. Qed.
 
-(* the fetch that graph.Index performs right after a successful store cannot fail *)
-Lemma file_index_after_ok d s1 :
-  file_inv s1 -> name_ok d s1 = true ->
-  (get N.eqb (d_dig d) (f_d2p s1) <> None \/ get gkey_eqb (gk d) (f_cas s1) <> None) ->
-  exists c1, file_fetch d s1 = Some c1 /\ b_hash c1 = d_dig d.
+(* what Fetch returns hashes to the digest it was asked for, and its titles are alias free *)
+Lemma file_fetch_inv d s c : file_inv s -> file_fetch d s = Some c -> b_hash c = d_dig d /\ titles_ok c.
 Proof.
-  intros [A B C] Hn H. unfold file_fetch. rewrite Hn.
-  destruct (get N.eqb (d_dig d) (f_d2p s1)) as [p|] eqn:E.
-  - destruct (A _ _ E) as (_ & c & Hc & Hh). eauto.
-  - destruct H as [H|H]; [congruence|].
-    destruct (get gkey_eqb (gk d) (f_cas s1)) as [c|] eqn:Ec; [|congruence].
-    exists c. split; auto. apply (C _ _ Ec).
+  intros [A B C]. unfold file_fetch. destruct (name_ok d s); [|discriminate].
+  destruct (get N.eqb (d_dig d) (f_d2p s)) as [p|] eqn:E.
+  - destruct (A _ _ E) as (_ & c0 & Hc & Hh). intro H. rewrite H in Hc. injection Hc as <-.
+    split; auto. apply (B _ _ H).
+  - intro H. destruct (C _ _ H) as [H1 H2]. split; auto.
 Qed.
 
-(* the theorems about the file store exclude the aliasing name *)
-Definition no_alias (o : op) : Prop :=
-  match o with Push d _ => path_of (d_name d) = d_name d | _ => True end.
+Lemma titles_ok_empty : titles_ok (mkBlob 0 0 [] 0 []).
+Proof. split; intros k n []. Qed.
 
-Lemma file_index_after_inv d s1 : file_inv s1 -> file_inv (fst (file_index_after d s1)).
+(* the theorems about the file store exclude the aliasing name, also among the titles *)
+Definition no_alias (o : op) : Prop :=
+  match o with Push d c => path_of (d_name d) = d_name d /\ titles_ok c | _ => True end.
+
+Lemma file_named_push_inv ov s k n c :
+  file_inv s -> path_of n = n -> titles_ok c ->
+  file_inv (fst (file_named_push true ov s k n c)).
 Proof.
-  intro H. unfold file_index_after. destruct (is_manifest (d_mt d)).
+  intros Hinv Hn Ht. pose proof Hinv as [A B C]. unfold file_named_push. rewrite Hn.
+  destruct (mem N.eqb n (f_names s)) eqn:Em; [exact Hinv|].
+  destruct (bad_name n); [exact Hinv|].
+  destruct (ov && is_some (get N.eqb n (f_disk s))); [exact Hinv|].
+  assert (Hnot : ~ In n (f_names s)) by (intro H; apply memN_In in H; congruence).
+  destruct ((k_dig k =? b_hash c) && (k_size k =? b_len c)) eqn:V; cbn [fst].
+  - apply andb_true_iff in V as [V _]. apply N.eqb_eq in V.
+    constructor; cbn [f_names f_d2p f_disk f_cas]; auto.
+    + intros g p. destruct (N.eq_dec g (k_dig k)) as [->|Hne].
+      * rewrite (get_put_eq N.eqb Neqb_spec). intro E. injection E as <-. split; [now left|].
+        exists c. rewrite (get_put_eq N.eqb Neqb_spec). split; auto.
+      * rewrite (get_put_neq N.eqb Neqb_spec) by exact Hne. intro E.
+        destruct (A _ _ E) as (Hp & c0 & Hc0 & Hh). split; [now right|]. exists c0. split; auto.
+        rewrite (get_put_neq N.eqb Neqb_spec); auto. intro; subst. contradiction.
+    + intros p c0. destruct (N.eq_dec p n) as [->|Hne].
+      * rewrite (get_put_eq N.eqb Neqb_spec). intro E. injection E as <-. split; [now left | exact Ht].
+      * rewrite (get_put_neq N.eqb Neqb_spec) by exact Hne. intro E.
+        destruct (B _ _ E). split; [now right | auto].
+  - constructor; cbn [f_names f_d2p f_disk f_cas]; auto.
+    + intros g p E. destruct (A _ _ E) as (Hp & c0 & Hc0 & Hh). split; auto. exists c0. split; auto.
+      rewrite (get_del_neq N.eqb Neqb_spec); auto. intro; subst. contradiction.
+    + intros p c0 E. destruct (N.eq_dec p n) as [->|Hne].
+      * rewrite (get_del_eq N.eqb) in E. discriminate.
+      * rewrite (get_del_neq N.eqb Neqb_spec) in E by exact Hne. eapply B; eauto.
+Qed.
+
+Lemma file_restore_inv ov tl : forall s,
+  file_inv s -> (forall k n, In (k, n) tl -> path_of n = n) ->
+  file_inv (fst (file_restore true ov tl s)).
+Proof.
+  induction tl as [|[k n] tl IH]; intros s Hinv Ht; [exact Hinv|].
+  assert (Ht' : forall k0 n0, In (k0, n0) tl -> path_of n0 = n0) by (intros; eapply Ht; right; eauto).
+  cbn [file_restore]. destruct ((n =? 0) || mem N.eqb n (f_names s)); [now apply IH|].
+  destruct (file_fetch (mkDesc (k_mt k) (k_dig k) (k_size k) 0) s) as [c2|] eqn:Ef; [|now apply IH].
+  destruct (file_fetch_inv _ _ _ Hinv Ef) as [_ Hok].
+  set (c2' := match get N.eqb (k_dig k) (f_d2p s) with
+              | Some p => if (p =? path_of n) && negb (b_len c2 =? 0) then mkBlob 0 0 [] 0 [] else c2
+              | None => c2 end).
+  assert (Hok' : titles_ok c2').
+  { unfold c2'. destruct (get N.eqb (k_dig k) (f_d2p s)); auto.
+    destruct ((n0 =? path_of n) && negb (b_len c2 =? 0)); auto using titles_ok_empty. }
+  pose proof (file_named_push_inv ov s k n c2' Hinv (Ht k n (or_introl eq_refl)) Hok') as H1.
+  destruct (file_named_push true ov s k n c2') as [s1 [e|]]; cbn [fst] in H1.
+  - destruct e as [o|[| |]]; try exact H1. now apply IH.
+  - now apply IH.
+Qed.
+
+Lemma file_index_inv d s1 : file_inv s1 -> file_inv (fst (file_index d s1)).
+Proof.
+  intro H. unfold file_index. destruct (is_manifest (d_mt d)).
   - destruct (file_fetch d s1) as [c1|]; cbn [fst]; [|exact H].
     destruct (d_dig d =? b_hash c1); cbn [fst]; [now apply file_inv_graph | exact H].
   - cbn [fst]. now apply file_inv_graph.
 Qed.
 
-Lemma file_index_after_succeeds d s1 :
-  file_inv s1 -> name_ok d s1 = true ->
-  (get N.eqb (d_dig d) (f_d2p s1) <> None \/ get gkey_eqb (gk d) (f_cas s1) <> None) ->
-  snd (file_index_after d s1) = FO OOk.
+Lemma file_index_after_inv ov d s1 : file_inv s1 -> file_inv (fst (file_index_after true ov d s1)).
 Proof.
-  intros H Hn Hp. unfold file_index_after. destruct (is_manifest (d_mt d)); [|reflexivity].
-  destruct (file_index_after_ok d s1 H Hn Hp) as (c1 & -> & Hh). rewrite Hh, N.eqb_refl. reflexivity.
+  intro H. unfold file_index_after. destruct (is_manifest (d_mt d)); [|now apply file_index_inv].
+  destruct (file_fetch d s1) as [c1|] eqn:Ef; cbn [fst]; [|exact H].
+  destruct (d_dig d =? b_hash c1); cbn [fst]; [|exact H].
+  destruct (file_fetch_inv _ _ _ H Ef) as [_ [Hok _]].
+  pose proof (file_restore_inv ov (b_tl c1) s1 H Hok) as H2.
+  destruct (file_restore true ov (b_tl c1) s1) as [s2 [e|]]; cbn [fst] in *; [exact H2|].
+  now apply file_index_inv.
 Qed.
 
-Lemma file_inv_unnamed s d c' :
-  file_inv s -> verify d c' = true ->
-  file_inv (mkFile (f_names s) (f_d2p s) (f_disk s) (put gkey_eqb (gk d) c' (f_cas s)) (f_res s) (f_graph s)).
+Lemma titles_ok_limit d c : titles_ok c -> titles_ok (limit_reader d c).
 Proof.
-  intros [A B C] V. constructor; cbn [f_names f_d2p f_disk f_cas]; auto. intros k c0.
-  destruct (gdec k (gk d)) as [->|Hne].
-  - rewrite (get_put_eq gkey_eqb gkey_eqb_spec). intro E. injection E as <-.
-    apply verify_spec in V as [V _]. exact V.
-  - rewrite (get_put_neq gkey_eqb gkey_eqb_spec) by exact Hne. apply C.
-Qed.
-
-Lemma file_inv_named s d c :
-  file_inv s -> verify d c = true -> ~ In (d_name d) (f_names s) ->
-  file_inv (mkFile (d_name d :: f_names s) (put N.eqb (d_dig d) (d_name d) (f_d2p s))
-                   (put N.eqb (d_name d) c (f_disk s)) (f_cas s) (f_res s) (f_graph s)).
-Proof.
-  intros [A B C] V Hnot. constructor; cbn [f_names f_d2p f_disk f_cas]; auto.
-  - intros g p. destruct (N.eq_dec g (d_dig d)) as [->|Hne].
-    + rewrite (get_put_eq N.eqb Neqb_spec). intro E. injection E as <-. split; [now left|].
-      exists c. rewrite (get_put_eq N.eqb Neqb_spec). split; auto. now apply verify_spec in V as [V _].
-    + rewrite (get_put_neq N.eqb Neqb_spec) by exact Hne. intro E.
-      destruct (A _ _ E) as (Hp & c0 & Hc0 & Hh). split; [now right|]. exists c0. split; auto.
-      rewrite (get_put_neq N.eqb Neqb_spec); auto. intro; subst. contradiction.
-  - intros p c0. destruct (N.eq_dec p (d_name d)) as [->|Hne]; [intros _; now left|].
-    rewrite (get_put_neq N.eqb Neqb_spec) by exact Hne. intro E. right. eapply B; eauto.
-Qed.
-
-Lemma file_inv_failed s d :
-  file_inv s -> ~ In (d_name d) (f_names s) ->
-  file_inv (mkFile (f_names s) (f_d2p s) (del N.eqb (d_name d) (f_disk s)) (f_cas s) (f_res s) (f_graph s)).
-Proof.
-  intros [A B C] Hnot. constructor; cbn [f_names f_d2p f_disk f_cas]; auto.
-  - intros g p E. destruct (A _ _ E) as (Hp & c0 & Hc0 & Hh). split; auto. exists c0. split; auto.
-    rewrite (get_del_neq N.eqb Neqb_spec); auto. intro; subst. contradiction.
-  - intros p c0 E. destruct (N.eq_dec p (d_name d)) as [->|Hne].
-    + rewrite (get_del_eq N.eqb) in E. discriminate.
-    + rewrite (get_del_neq N.eqb Neqb_spec) in E by exact Hne. eapply B; eauto.
+  intros [A B]. unfold limit_reader. destruct (d_size d <? b_len c); [|split; auto].
+  split; simpl; auto.
 Qed.
 
 Lemma file_step_inv ig ov s o : no_alias o -> file_inv s -> file_inv (fst (file_step true ig ov s o)).
 Proof.
   intros Hna Hinv. pose proof Hinv as [A B C]. destruct o; cbn [file_step]; try exact Hinv.
   - (* Push *)
-    cbn [no_alias] in Hna. rewrite Hna.
+    destruct Hna as [Hna Ht].
     destruct (d_name d =? 0) eqn:En.
-    + destruct ig; [destruct (is_manifest (d_mt d) && negb (verify d c)); exact Hinv|].
-      destruct (get gkey_eqb (gk d) (f_cas s)) eqn:Ec; [exact Hinv|].
-      destruct (verify d (limit_reader d c)) eqn:V; [|exact Hinv].
-      apply file_index_after_inv. now apply file_inv_unnamed.
-    + destruct (mem N.eqb (d_name d) (f_names s)) eqn:Em; [exact Hinv|].
-      destruct (ov && is_some (get N.eqb (d_name d) (f_disk s))); [exact Hinv|].
-      assert (Hnot : ~ In (d_name d) (f_names s)).
-      { intro H. apply memN_In in H. congruence. }
-      destruct (verify d c) eqn:V.
-      * apply file_index_after_inv. now apply file_inv_named.
-      * cbn [fst]. now apply file_inv_failed.
+    + destruct ig.
+      * destruct (is_manifest (d_mt d)); [|exact Hinv]. destruct (verify d c); [|exact Hinv].
+        pose proof (file_restore_inv ov (b_tl c) s Hinv (proj1 Ht)) as H2.
+        destruct (file_restore true ov (b_tl c) s) as [s2 [e|]]; exact H2.
+      * destruct (get gkey_eqb (gk d) (f_cas s)) eqn:Ec; [exact Hinv|].
+        destruct (verify d (limit_reader d c)) eqn:V; [|exact Hinv].
+        apply file_index_after_inv.
+        constructor; cbn [f_names f_d2p f_disk f_cas]; auto. intros k c0.
+        destruct (gdec k (gk d)) as [->|Hne].
+        -- rewrite (get_put_eq gkey_eqb gkey_eqb_spec). intro E. injection E as <-.
+           apply verify_spec in V as [V _]. split; [exact V | now apply titles_ok_limit].
+        -- rewrite (get_put_neq gkey_eqb gkey_eqb_spec) by exact Hne. apply C.
+    + pose proof (file_named_push_inv ov s (gk d) (d_name d) c Hinv Hna Ht) as H1.
+      destruct (file_named_push true ov s (gk d) (d_name d) c) as [s1 [e|]]; cbn [fst] in *; [exact H1|].
+      now apply file_index_after_inv.
   - destruct (file_fetch d s); exact Hinv.
   - destruct r; try exact Hinv; (destruct (file_exists d s); [|exact Hinv]; cbn [fst]; constructor; auto).
   - destruct r; try exact Hinv; destruct (get ref_eqb _ (r_index (f_res s))); exact Hinv.
@@ -1277,49 +1318,182 @@ Proof.
   inversion Hna; subst. apply IH; auto. now apply file_step_inv.
 Qed.
 
-(* no Fetch ever returns bytes that do not hash to the requested digest *)
+(* no Fetch ever returns bytes that do not hash to the requested digest -- also in histories
+   whose manifests carry titled successors (restoreDuplicates) *)
 Lemma file_fetch_matches ig ov h d hash len :
   Forall no_alias h ->
   let s := fst (runf (file_step true ig ov) file_init h) in
   snd (file_step true ig ov s (Fetch d)) = FO (OBytes hash len) -> hash = d_dig d.
 Proof.
-  intros Hna s. pose proof (file_run_inv ig ov h _ Hna file_inv_init) as [A B C]. fold s in A, B, C.
-  cbn [file_step]. unfold file_fetch.
-  destruct (name_ok d s); [|discriminate].
-  destruct (get N.eqb (d_dig d) (f_d2p s)) as [p|] eqn:E.
-  - destruct (A _ _ E) as (_ & c & Hc & Hh). rewrite Hc. cbn [snd]. intro H. injection H as <- _. exact Hh.
-  - destruct (get gkey_eqb (gk d) (f_cas s)) as [c|] eqn:Ec; [|discriminate].
-    cbn [snd]. intro H. injection H as <- _. apply (C _ _ Ec).
+  intros Hna s. pose proof (file_run_inv ig ov h _ Hna file_inv_init) as Hinv. fold s in Hinv.
+  cbn [file_step]. destruct (file_fetch d s) as [c|] eqn:Ef; [|discriminate].
+  destruct (file_fetch_inv _ _ _ Hinv Ef) as [Hh _]. cbn [snd]. intro H. injection H as <- _. exact Hh.
 Qed.
 
-(* a refused or failed operation changes nothing (repaired code) *)
+(* ---- histories without titled successors: a refused or failed operation changes nothing ---- *)
+Definition untitled_blob (c : blob) : Prop := b_tl c = [] /\ b_pre_tl c = [].
+Definition untitled (o : op) : Prop := match o with Push _ c => untitled_blob c | _ => True end.
+
+Record file_unt (s : file_store) : Prop := mkFU {
+  fu_disk : forall p c, get N.eqb p (f_disk s) = Some c -> b_tl c = [];
+  fu_cas : forall k c, get gkey_eqb k (f_cas s) = Some c -> b_tl c = [] }.
+
+Lemma file_fetch_unt d s c : file_unt s -> file_fetch d s = Some c -> b_tl c = [].
+Proof.
+  intros [A C]. unfold file_fetch. destruct (name_ok d s); [|discriminate].
+  destruct (get N.eqb (d_dig d) (f_d2p s)) as [p|]; intro H; eauto.
+Qed.
+
+Lemma untitled_titles_ok c : untitled_blob c -> titles_ok c.
+Proof. intros [A B]. unfold titles_ok. rewrite A, B. split; intros k n []. Qed.
+
+Lemma untitled_no_alias o : untitled o -> (match o with Push d _ => path_of (d_name d) = d_name d | _ => True end) -> no_alias o.
+Proof. destruct o; simpl; auto. intros H1 H2. split; auto. now apply untitled_titles_ok. Qed.
+
+(* with untitled content restoreDuplicates has nothing to do, and the read-back succeeds *)
+Lemma file_index_after_unt ov d s1 :
+  file_inv s1 -> file_unt s1 -> name_ok d s1 = true ->
+  (get N.eqb (d_dig d) (f_d2p s1) <> None \/ get gkey_eqb (gk d) (f_cas s1) <> None) ->
+  snd (file_index_after true ov d s1) = FO OOk /\
+  file_unt (fst (file_index_after true ov d s1)).
+Proof.
+  intros Hinv Hu Hn Hp. unfold file_index_after, file_index.
+  destruct (is_manifest (d_mt d)); [|split; [reflexivity | destruct Hu; constructor; auto]].
+  assert (Hf : exists c1, file_fetch d s1 = Some c1).
+  { destruct Hinv as [A B C]. unfold file_fetch. rewrite Hn.
+    destruct (get N.eqb (d_dig d) (f_d2p s1)) as [p|] eqn:E.
+    - destruct (A _ _ E) as (_ & c & Hc & _). eauto.
+    - destruct Hp as [Hp|Hp]; [congruence|]. destruct (get gkey_eqb (gk d) (f_cas s1)); [eauto|congruence]. }
+  destruct Hf as (c1 & Hf). rewrite Hf.
+  destruct (file_fetch_inv _ _ _ Hinv Hf) as [Hh _]. rewrite Hh, N.eqb_refl.
+  rewrite (file_fetch_unt _ _ _ Hu Hf). cbn [file_restore]. rewrite Hf, Hh, N.eqb_refl.
+  split; [reflexivity | destruct Hu; constructor; auto].
+Qed.
+
+Lemma file_step_unt ig ov s o :
+  no_alias o -> untitled o -> file_inv s -> file_unt s -> file_unt (fst (file_step true ig ov s o)).
+Proof.
+  intros Hna Hun Hinv Hu. pose proof Hu as [UA UC]. destruct o; cbn [file_step]; try exact Hu.
+  - destruct Hna as [Hna Ht]. destruct Hun as [Hun1 Hun2].
+    destruct (d_name d =? 0) eqn:En.
+    + destruct ig.
+      * destruct (is_manifest (d_mt d)); [|exact Hu]. destruct (verify d c); [|exact Hu].
+        rewrite Hun1. exact Hu.
+      * destruct (get gkey_eqb (gk d) (f_cas s)) eqn:Ec; [exact Hu|].
+        destruct (verify d (limit_reader d c)) eqn:V; [|exact Hu].
+        set (s1 := mkFile _ _ _ (put gkey_eqb (gk d) (limit_reader d c) (f_cas s)) _ _).
+        assert (Hu1 : file_unt s1).
+        { constructor; cbn [s1 f_disk f_cas]; auto. intros k c0.
+          destruct (gdec k (gk d)) as [->|Hne].
+          - rewrite (get_put_eq gkey_eqb gkey_eqb_spec). intro E. injection E as <-.
+            unfold limit_reader. destruct (d_size d <? b_len c); auto.
+          - rewrite (get_put_neq gkey_eqb gkey_eqb_spec) by exact Hne. apply UC. }
+        assert (Hi1 : file_inv s1).
+        { pose proof (file_step_inv false ov s (Push d c) (conj Hna Ht) Hinv) as H. cbn [file_step] in H.
+          rewrite En, Ec, V in H. fold s1 in H.
+          destruct Hinv as [A B C]. constructor; cbn [s1 f_names f_d2p f_disk f_cas]; auto. intros k c0.
+          destruct (gdec k (gk d)) as [->|Hne].
+          - rewrite (get_put_eq gkey_eqb gkey_eqb_spec). intro E. injection E as <-.
+            apply verify_spec in V as [V _]. split; [exact V | now apply titles_ok_limit].
+          - rewrite (get_put_neq gkey_eqb gkey_eqb_spec) by exact Hne. apply C. }
+        apply file_index_after_unt; auto.
+        -- unfold name_ok. now rewrite En.
+        -- right. cbn [s1 f_cas]. rewrite (get_put_eq gkey_eqb gkey_eqb_spec). discriminate.
+    + unfold file_named_push. rewrite Hna.
+      destruct (mem N.eqb (d_name d) (f_names s)) eqn:Em; [exact Hu|].
+      destruct (bad_name (d_name d)) eqn:Eb; [exact Hu|].
+      destruct (ov && is_some (get N.eqb (d_name d) (f_disk s))) eqn:Eo; [exact Hu|].
+      destruct ((k_dig (gk d) =? b_hash c) && (k_size (gk d) =? b_len c)) eqn:V.
+      * set (s1 := mkFile (d_name d :: f_names s) _ _ _ _ _).
+        assert (Hu1 : file_unt s1).
+        { constructor; cbn [s1 f_disk f_cas]; auto. intros p c0.
+          destruct (N.eq_dec p (d_name d)) as [->|Hne].
+          - rewrite (get_put_eq N.eqb Neqb_spec). intro E. now injection E as <-.
+          - rewrite (get_put_neq N.eqb Neqb_spec) by exact Hne. apply UA. }
+        assert (Hi1 : file_inv s1).
+        { pose proof (file_named_push_inv ov s (gk d) (d_name d) c Hinv Hna Ht) as H.
+          unfold file_named_push in H. rewrite Hna, Em, Eb, Eo, V in H. exact H. }
+        apply file_index_after_unt; auto.
+        -- unfold name_ok. cbn [s1 f_names]. apply orb_true_iff. right. apply memN_In. now left.
+        -- left. cbn [s1 f_d2p]. rewrite (get_put_eq N.eqb Neqb_spec). discriminate.
+      * cbn [fst]. constructor; cbn [f_disk f_cas]; auto. intros p c0 E.
+        destruct (N.eq_dec p (d_name d)) as [->|Hne].
+        -- rewrite (get_del_eq N.eqb) in E. discriminate.
+        -- rewrite (get_del_neq N.eqb Neqb_spec) in E by exact Hne. eapply UA; eauto.
+  - destruct (file_fetch d s); exact Hu.
+  - destruct r; try exact Hu; (destruct (file_exists d s); [|exact Hu]; cbn [fst]; constructor; auto).
+  - destruct r; try exact Hu; destruct (get ref_eqb _ (r_index (f_res s))); exact Hu.
+Qed.
+
+Lemma file_run_unt ig ov h : forall s,
+  Forall no_alias h -> Forall untitled h -> file_inv s -> file_unt s ->
+  file_inv (fst (runf (file_step true ig ov) s h)) /\ file_unt (fst (runf (file_step true ig ov) s h)).
+Proof.
+  induction h as [|o h IH]; intros s Hna Hun Hi Hu; [auto|]. rewrite runf_cons. cbn [fst].
+  inversion Hna; inversion Hun; subst. apply IH; auto; [now apply file_step_inv | now apply file_step_unt].
+Qed.
+
+Lemma file_unt_init : file_unt file_init.
+Proof. constructor; simpl; intros; discriminate. Qed.
+
+(* a refused or failed operation changes nothing (repaired pushFile; no aliasing name; no
+   titled successors, i.e. restoreDuplicates has nothing to restore) *)
 Lemma file_failed_noop ig ov h o :
-  Forall no_alias h -> no_alias o ->
+  Forall no_alias h -> Forall untitled h -> no_alias o -> untitled o ->
   let s := fst (runf (file_step true ig ov) file_init h) in
   fout_is_err (snd (file_step true ig ov s o)) = true -> fst (file_step true ig ov s o) = s.
 Proof.
-  intros Hna Hnao s. pose proof (file_run_inv ig ov h _ Hna file_inv_init) as Hinv. fold s in Hinv.
+  intros Hna Hun Hnao Huno s.
+  destruct (file_run_unt ig ov h _ Hna Hun file_inv_init file_unt_init) as [Hinv Hu]. fold s in Hinv, Hu.
   pose proof Hinv as [A B C]. destruct o; cbn [file_step]; try reflexivity.
-  - cbn [no_alias] in Hnao. rewrite Hnao.
+  - destruct Hnao as [Hnao Ht]. destruct Huno as [Hu1 Hu2].
     destruct (d_name d =? 0) eqn:En.
-    + destruct ig; [destruct (is_manifest (d_mt d) && negb (verify d c)); reflexivity|].
-      destruct (get gkey_eqb (gk d) (f_cas s)) eqn:Ec; [reflexivity|].
-      destruct (verify d (limit_reader d c)) eqn:V; [|reflexivity].
-      rewrite file_index_after_succeeds; [discriminate | now apply file_inv_unnamed | |].
-      * unfold name_ok. now rewrite En.
-      * right. cbn [f_cas]. rewrite (get_put_eq gkey_eqb gkey_eqb_spec). discriminate.
-    + destruct (mem N.eqb (d_name d) (f_names s)) eqn:Em; [reflexivity|].
-      destruct (ov && is_some (get N.eqb (d_name d) (f_disk s))); [reflexivity|].
-      assert (Hnot : ~ In (d_name d) (f_names s)).
-      { intro H. apply memN_In in H. congruence. }
-      destruct (verify d c) eqn:V.
-      * rewrite file_index_after_succeeds; [discriminate | now apply file_inv_named | |].
-        -- unfold name_ok. cbn [f_names]. apply orb_true_iff. right. apply memN_In. now left.
-        -- left. cbn [f_d2p]. rewrite (get_put_eq N.eqb Neqb_spec). discriminate.
+    + destruct ig.
+      * destruct (is_manifest (d_mt d)); [|reflexivity]. destruct (verify d c); [|reflexivity].
+        rewrite Hu1. reflexivity.
+      * destruct (get gkey_eqb (gk d) (f_cas s)) eqn:Ec; [reflexivity|].
+        destruct (verify d (limit_reader d c)) eqn:V; [|reflexivity].
+        set (s1 := mkFile _ _ _ (put gkey_eqb (gk d) (limit_reader d c) (f_cas s)) _ _).
+        assert (Hi1 : file_inv s1 /\ file_unt s1).
+        { split.
+          - constructor; cbn [s1 f_names f_d2p f_disk f_cas]; auto. intros k c0.
+            destruct (gdec k (gk d)) as [->|Hne].
+            + rewrite (get_put_eq gkey_eqb gkey_eqb_spec). intro E. injection E as <-.
+              apply verify_spec in V as [V _]. split; [exact V | now apply titles_ok_limit].
+            + rewrite (get_put_neq gkey_eqb gkey_eqb_spec) by exact Hne. apply C.
+          - destruct Hu as [UA UC]. constructor; cbn [s1 f_disk f_cas]; auto. intros k c0.
+            destruct (gdec k (gk d)) as [->|Hne].
+            + rewrite (get_put_eq gkey_eqb gkey_eqb_spec). intro E. injection E as <-.
+              unfold limit_reader. destruct (d_size d <? b_len c); auto.
+            + rewrite (get_put_neq gkey_eqb gkey_eqb_spec) by exact Hne. apply UC. }
+        destruct Hi1 as [Hi1 Hu1'].
+        destruct (file_index_after_unt ov d s1 Hi1 Hu1') as [Hok _].
+        { unfold name_ok. now rewrite En. }
+        { right. cbn [s1 f_cas]. rewrite (get_put_eq gkey_eqb gkey_eqb_spec). discriminate. }
+        rewrite Hok. discriminate.
+    + unfold file_named_push. rewrite Hnao.
+      destruct (mem N.eqb (d_name d) (f_names s)) eqn:Em; [reflexivity|].
+      destruct (bad_name (d_name d)) eqn:Eb; [reflexivity|].
+      destruct (ov && is_some (get N.eqb (d_name d) (f_disk s))) eqn:Eo; [reflexivity|].
+      assert (Hnot : ~ In (d_name d) (f_names s)) by (intro H; apply memN_In in H; congruence).
+      destruct ((k_dig (gk d) =? b_hash c) && (k_size (gk d) =? b_len c)) eqn:V.
+      * set (s1 := mkFile (d_name d :: f_names s) _ _ _ _ _).
+        assert (Hi1 : file_inv s1).
+        { pose proof (file_named_push_inv ov s (gk d) (d_name d) c Hinv Hnao Ht) as H.
+          unfold file_named_push in H. rewrite Hnao, Em, Eb, Eo, V in H. exact H. }
+        assert (Hu1' : file_unt s1).
+        { destruct Hu as [UA UC]. constructor; cbn [s1 f_disk f_cas]; auto. intros p c0.
+          destruct (N.eq_dec p (d_name d)) as [->|Hne].
+          - rewrite (get_put_eq N.eqb Neqb_spec). intro E. now injection E as <-.
+          - rewrite (get_put_neq N.eqb Neqb_spec) by exact Hne. apply UA. }
+        destruct (file_index_after_unt ov d s1 Hi1 Hu1') as [Hok _].
+        { unfold name_ok. cbn [s1 f_names]. apply orb_true_iff. right. apply memN_In. now left. }
+        { left. cbn [s1 f_d2p]. rewrite (get_put_eq N.eqb Neqb_spec). discriminate. }
+        rewrite Hok. discriminate.
       * intros _. cbn [fst].
         assert (Hd : get N.eqb (d_name d) (f_disk s) = None).
         { destruct (get N.eqb (d_name d) (f_disk s)) as [c0|] eqn:E; auto.
-          apply B in E. contradiction. }
+          apply B in E. destruct E. contradiction. }
         rewrite (del_absent N.eqb _ _ Hd). now destruct s.
   - destruct (file_fetch d s); reflexivity.
   - destruct r; try reflexivity; (destruct (file_exists d s); [discriminate|reflexivity]).
@@ -1332,7 +1506,7 @@ Lemma file_duplicate_name fx ig ov s d c :
   file_step fx ig ov s (Push d c) = (s, FE FDuplicateName).
 Proof.
   intros Hn Hin. cbn [file_step]. apply N.eqb_neq in Hn. rewrite Hn.
-  apply memN_In in Hin. now rewrite Hin.
+  unfold file_named_push. apply memN_In in Hin. now rewrite Hin.
 Qed.
 
 (* ---------- witnesses: what the file store does not satisfy ---------- *)
@@ -1426,6 +1600,19 @@ Lemma file_alias_witness :
     = [FO OOk; FO OOk; FO (OBytes 2 5)] /\ d_dig w_named = 1.
 Proof. vm_compute. auto. Qed.
 
+(* known (audit F1): restoreDuplicates fails AFTER the manifest was stored -- here the layer
+   entry is titled with a name outside the working directory.  The failed Push has changed
+   the state: Exists answers true, a re-push is already-exists, Predecessors never lists it. *)
+Definition w_layer := mkDesc 6 1 5 0.
+Definition w_manifest := mkDesc 1 9 20 0.
+Definition w_manifest_blob := mkBlobT 9 20 [(6, 1, 5)] 9 [(6, 1, 5)] [((6, 1, 5), 6)] [((6, 1, 5), 6)].
+Lemma file_restore_fails_witness :
+  snd (runf (file_step true false false) file_init
+            [Push w_layer w_good; Push w_manifest w_manifest_blob; Exists w_manifest;
+             Push w_manifest w_manifest_blob; Preds w_layer])
+    = [FO OOk; FE FTraversal; FO (OBool true); FO (OErr EAlreadyExists); FO (OPreds [])].
+Proof. vm_compute. reflexivity. Qed.
+
 (* ---------- a concrete universe and history (non-vacuity of the OCI hypotheses) ---------- *)
 Definition ex_U (g : N) : gkey :=
   if g =? 1 then (1, 1, 10) else if g =? 2 then (6, 2, 5) else (0, g, 0).
@@ -1450,3 +1637,79 @@ Lemma ex_run :
   [ OOk; OOk; OErr EAlreadyExists; OOk; ODesc ex_man; ODesc (mkDesc 0 2 5 0);
     OPreds [(1, 1, 10)]; OOk; OErr ENotFound; OPreds []; OErr ENotFound ].
 Proof. vm_compute. reflexivity. Qed.
+
+(* ================================================================== *)
+(* "No operation ever returns bytes that do not match its descriptor"  *)
+(* ================================================================== *)
+Definition cas_verified (cas : list (gkey * blob)) : Prop :=
+  forall k c, get gkey_eqb k cas = Some c -> b_hash c = k_dig k /\ b_len c = k_size k.
+
+Lemma mem_step_verified s o : cas_verified (m_cas s) -> cas_verified (m_cas (fst (mem_step s o))).
+Proof.
+  intro H. destruct o; simpl; auto.
+  - destruct (get gkey_eqb (gk d) (m_cas s)) eqn:E; auto. destruct (verify d c) eqn:V; auto. simpl.
+    intros k c0. destruct (gdec k (gk d)) as [->|Hne].
+    + rewrite (get_put_eq gkey_eqb gkey_eqb_spec). intro X. injection X as <-. now apply verify_spec.
+    + rewrite (get_put_neq gkey_eqb gkey_eqb_spec) by exact Hne. apply H.
+  - destruct (get gkey_eqb (gk d) (m_cas s)); auto.
+  - destruct (is_some _); auto.
+  - destruct (get ref_eqb r (r_index (m_res s))); auto.
+Qed.
+
+Lemma mem_run_verified h : forall s, cas_verified (m_cas s) -> cas_verified (m_cas (fst (run mem_step s h))).
+Proof.
+  induction h as [|o h IH]; intros s H; [exact H|]. rewrite run_cons. cbn [fst]. apply IH.
+  now apply mem_step_verified.
+Qed.
+
+(* memory: whatever Fetch returns has the digest and the size of the requested descriptor *)
+Lemma mem_fetch_matches h d hash len :
+  snd (mem_step (fst (run mem_step mem_init h)) (Fetch d)) = OBytes hash len ->
+  hash = d_dig d /\ len = d_size d.
+Proof.
+  assert (H : cas_verified (m_cas (fst (run mem_step mem_init h)))).
+  { apply mem_run_verified. intros k c X. discriminate. }
+  simpl. destruct (get gkey_eqb (gk d) (m_cas (fst (run mem_step mem_init h)))) as [c|] eqn:E; [|discriminate].
+  intro X. injection X as <- <-. apply (H _ _ E).
+Qed.
+
+Definition blobs_verified (blobs : list (N * blob)) : Prop :=
+  forall g c, get N.eqb g blobs = Some c -> b_hash c = g.
+
+Lemma oci_step_verified s o : blobs_verified (o_blobs s) -> blobs_verified (o_blobs (fst (oci_step s o))).
+Proof.
+  intro H. destruct o; simpl; auto.
+  - destruct (get N.eqb (d_dig d) (o_blobs s)) eqn:E; auto. destruct (verify d c) eqn:V; auto. simpl.
+    intros g c0. destruct (N.eq_dec g (d_dig d)) as [->|Hne].
+    + rewrite (get_put_eq N.eqb Neqb_spec). intro X. injection X as <-. now apply verify_spec in V as [V _].
+    + rewrite (get_put_neq N.eqb Neqb_spec) by exact Hne. apply H.
+  - destruct (get N.eqb (d_dig d) (o_blobs s)); auto.
+  - destruct r; auto; destruct (is_some _); auto.
+  - destruct r as [m|g|]; auto.
+    + destruct (get ref_eqb (RName m) (r_index (o_res s))); auto.
+    + destruct (get ref_eqb (RDig g) (r_index (o_res s))); auto; destruct (get N.eqb g (o_blobs s)); auto.
+  - destruct r as [m|g|]; auto.
+    + destruct (get ref_eqb (RName m) (r_index (o_res s))) as [d1|]; auto; destruct (ref_eqb _ (RDig (d_dig d1))); auto.
+    + destruct (get ref_eqb (RDig g) (r_index (o_res s))) as [d1|]; auto; destruct (ref_eqb _ (RDig (d_dig d1))); auto.
+  - destruct (get N.eqb (d_dig d) (o_blobs s)) eqn:E; simpl; auto.
+    intros g c0 X. destruct (N.eq_dec g (d_dig d)) as [->|Hne].
+    + rewrite (get_del_eq N.eqb) in X. discriminate.
+    + rewrite (get_del_neq N.eqb Neqb_spec) in X by exact Hne. now apply H.
+Qed.
+
+Lemma oci_run_verified h : forall s, blobs_verified (o_blobs s) -> blobs_verified (o_blobs (fst (run oci_step s h))).
+Proof.
+  induction h as [|o h IH]; intros s H; [exact H|]. rewrite run_cons. cbn [fst]. apply IH.
+  now apply oci_step_verified.
+Qed.
+
+(* OCI (content addressed by digest; the size field of the request is not consulted):
+   whatever Fetch returns hashes to the requested digest -- for every history, canonical or not *)
+Lemma oci_fetch_matches h d hash len :
+  snd (oci_step (fst (run oci_step oci_init h)) (Fetch d)) = OBytes hash len -> hash = d_dig d.
+Proof.
+  assert (H : blobs_verified (o_blobs (fst (run oci_step oci_init h)))).
+  { apply oci_run_verified. intros g c X. discriminate. }
+  simpl. destruct (get N.eqb (d_dig d) (o_blobs (fst (run oci_step oci_init h)))) as [c|] eqn:E; [|discriminate].
+  intro X. injection X as <- _. apply (H _ _ E).
+Qed.
